@@ -86,6 +86,9 @@ pub fn install_panic_hook() {
         let bt = std::backtrace::Backtrace::force_capture().to_string();
         let function = enclosing_function(&bt);
         let file = stable_path(&file);
+        if std::env::var("VERIF_DEBUG_PANIC").is_ok() {
+            eprintln!("panic: {} at {}:{} in {}", message, file, line, function);
+        }
         LAST_PANIC.with(|p| {
             *p.borrow_mut() = Some(PanicRecord {
                 message,
